@@ -144,32 +144,95 @@ fn payload_items(resolve: &Resolve, key: Option<&WorldKey>, f: &Function, export
     }
 }
 
+/// the payload-less `future` / `stream` ("unit") intrinsics: `ty: None`
+fn unit_items(resolve: &Resolve, key: Option<&WorldKey>, f: &Function, exported: bool, o: &mut Out) {
+    for is_future in [true, false] {
+        let rw = if is_future { "ii>i" } else { "iii>i" };
+        let table: [(bool, &str); 7] = [(false, ">I"), (true, rw), (true, rw), (true, "i>i"), (true, "i>i"), (false, "i>"), (false, "i>")];
+        for (idx, (may_async, sig)) in table.iter().enumerate() {
+            for async_ in [false, true] {
+                if async_ && !may_async {
+                    continue;
+                }
+                let (module, name) = if is_future {
+                    let intrinsic = match idx {
+                        0 => FutureIntrinsic::New,
+                        1 => FutureIntrinsic::Read,
+                        2 => FutureIntrinsic::Write,
+                        3 => FutureIntrinsic::CancelRead,
+                        4 => FutureIntrinsic::CancelWrite,
+                        5 => FutureIntrinsic::DropReadable,
+                        _ => FutureIntrinsic::DropWritable,
+                    };
+                    resolve.wasm_import_name(SYNC, WasmImport::FutureIntrinsic { interface: key, func: f, ty: None, intrinsic, exported, async_ })
+                } else {
+                    let intrinsic = match idx {
+                        0 => StreamIntrinsic::New,
+                        1 => StreamIntrinsic::Read,
+                        2 => StreamIntrinsic::Write,
+                        3 => StreamIntrinsic::CancelRead,
+                        4 => StreamIntrinsic::CancelWrite,
+                        5 => StreamIntrinsic::DropReadable,
+                        _ => StreamIntrinsic::DropWritable,
+                    };
+                    resolve.wasm_import_name(SYNC, WasmImport::StreamIntrinsic { interface: key, func: f, ty: None, intrinsic, exported, async_ })
+                };
+                o.items.push(item("I", &module, &name, sig, ""));
+            }
+        }
+    }
+}
+
 fn import_func(resolve: &Resolve, key: Option<&WorldKey>, f: &Function, o: &mut Out) {
-    for (m, v) in [(SYNC, AbiVariant::GuestImport), (ACB, AbiVariant::GuestImportAsync)] {
+    // `ManglingAndAbi::for_func` is wit-parser's rule for which ABI a function may use: a function whose
+    // WIT type is not `async` is forced to the sync ABI.
+    let mut seen = Vec::new();
+    for m in [SYNC, ACB, ASF] {
+        let m = m.for_func(f);
         let (module, name) = resolve.wasm_import_name(m, WasmImport::Func { interface: key, func: f });
-        o.items.push(item("I", &module, &name, &sig_str(&resolve.wasm_signature(v, f)), ""));
+        let it = item("I", &module, &name, &sig_str(&resolve.wasm_signature(m.import_variant(), f)), "");
+        if !seen.contains(&it) {
+            seen.push(it.clone());
+            o.items.push(it);
+        }
     }
     payload_items(resolve, key, f, false, o);
+    unit_items(resolve, key, f, false, o);
 }
 
 fn export_func(resolve: &Resolve, key: Option<&WorldKey>, f: &Function, o: &mut Out) {
-    let n_sync = resolve.wasm_export_name(SYNC, WasmExport::Func { interface: key, func: f, kind: WasmExportKind::Normal });
-    let n_acb = resolve.wasm_export_name(ACB, WasmExport::Func { interface: key, func: f, kind: WasmExportKind::Normal });
-    let n_asf = resolve.wasm_export_name(ASF, WasmExport::Func { interface: key, func: f, kind: WasmExportKind::Normal });
-    let n_cb = resolve.wasm_export_name(ACB, WasmExport::Func { interface: key, func: f, kind: WasmExportKind::Callback });
-    let n_post = resolve.wasm_export_name(SYNC, WasmExport::Func { interface: key, func: f, kind: WasmExportKind::PostReturn });
-    let s_sync = resolve.wasm_signature(AbiVariant::GuestExport, f);
-    o.items.push(item("E", "", &n_sync, &sig_str(&s_sync), ""));
-    o.items.push(item("E", "", &n_acb, &sig_str(&resolve.wasm_signature(AbiVariant::GuestExportAsync, f)), &n_cb));
-    o.items.push(item("E", "", &n_asf, &sig_str(&resolve.wasm_signature(AbiVariant::GuestExportAsyncStackful, f)), ""));
-    o.items.push(item("E", "", &n_cb, "iii>i", ""));
-    // wit-component validate_post_return: params := results of the sync export signature, no results
-    let post: String = s_sync.results.iter().map(ty_char).collect::<String>() + ">";
-    o.items.push(item("E", "", &n_post, &post, ""));
+    let mut seen: Vec<String> = Vec::new();
+    let mut alts: Vec<String> = Vec::new();
+    for m in [SYNC, ACB, ASF] {
+        let m = m.for_func(f);
+        let n = resolve.wasm_export_name(m, WasmExport::Func { interface: key, func: f, kind: WasmExportKind::Normal });
+        if alts.contains(&n) {
+            continue;
+        }
+        alts.push(n.clone());
+        let s = resolve.wasm_signature(m.export_variant(), f);
+        match m {
+            ManglingAndAbi::Legacy(LiftLowerAbi::Sync) => {
+                seen.push(item("E", "", &n, &sig_str(&s), ""));
+                let n_post = resolve.wasm_export_name(m, WasmExport::Func { interface: key, func: f, kind: WasmExportKind::PostReturn });
+                // wit-component validate_post_return: params := results of the sync export signature, no results
+                let post: String = s.results.iter().map(ty_char).collect::<String>() + ">";
+                seen.push(item("E", "", &n_post, &post, ""));
+            }
+            ManglingAndAbi::Legacy(LiftLowerAbi::AsyncCallback) => {
+                let n_cb = resolve.wasm_export_name(m, WasmExport::Func { interface: key, func: f, kind: WasmExportKind::Callback });
+                seen.push(item("E", "", &n, &sig_str(&s), &n_cb));
+                seen.push(item("E", "", &n_cb, "iii>i", ""));
+            }
+            _ => seen.push(item("E", "", &n, &sig_str(&s), "")),
+        }
+    }
+    o.items.extend(seen);
     let (module, name, sig) = f.task_return_import(resolve, key, Mangling::Legacy);
     o.items.push(item("I", &module, &name, &sig_str(&sig), ""));
     payload_items(resolve, key, f, true, o);
-    o.required.push(format!("{n_sync}\x1d{n_acb}\x1d{n_asf}"));
+    unit_items(resolve, key, f, true, o);
+    o.required.push(alts.join("\x1d"));
 }
 
 fn key_tokens(resolve: &Resolve, key: &WorldKey, o: &mut Out) -> Result<()> {
@@ -228,8 +291,10 @@ fn iface(resolve: &Resolve, key: &WorldKey, id: InterfaceId, exported: bool, o: 
                 );
                 o.items.push(item("I", &m, &n, sig, ""));
             }
-            let d = resolve.wasm_export_name(SYNC, WasmExport::ResourceDtor { interface: key, resource: r });
-            o.items.push(item("E", "", &d, "i>", ""));
+            for m in [SYNC, ACB, ASF] {
+                let d = resolve.wasm_export_name(m, WasmExport::ResourceDtor { interface: key, resource: r });
+                o.items.push(item("E", "", &d, "i>", ""));
+            }
         } else {
             let (m, n) = resolve.wasm_import_name(
                 SYNC,
